@@ -30,7 +30,7 @@ def strategy(tier):
     @st.composite
     def s(draw):
         c, n, tp = draw(gens.cfg(max_dim=352 if thorough else 208, frames=(1, 40 if thorough else 14), allow_twopass=True,
-                                 slow_p=25 if thorough else 8, lps=(1, 2, 4), exclude=("AQ1", "16BP", "TPL0", "GRAIN", "SRES", "MINQ0", "2PASS")))
+                                 slow_p=25 if thorough else 8, lps=(1, 2, 4), exclude=("AQ1", "16BP", "TPL0", "GRAIN", "SRES", "MINQ0", "2PASS", "OVL")))
         cnt = draw(gens.content())
         return gens.case_from(c, n, tp, cnt)
     return s()
